@@ -34,22 +34,19 @@ Theorem C57_readable_chains_share_no_slot : forall slotSize doublecheck img s f 
 Proof. exact readable_chains_disjoint. Qed.
 Print Assumptions C57_readable_chains_share_no_slot.
 
-(* --- sizes: the payload sizes of the chain add up to the bytes the rebuild recorded for the entry
-       (LoadingEntry::size). PARTIAL: the property asks for the entry size (anchor.basics.swap_file_sz);
-       the two differ for the image of C57_sizes_add_up_to_entry_size_refuted. --- *)
-Theorem C57_chain_sizes_add_up_partial : forall slotSize doublecheck img s f l,
+(* --- sizes: the payload sizes of the chain add up to the entry size (anchor.basics.swap_file_sz);
+       holds since /repo e9a49c7 (finalizeOrThrow compares the known size with the bytes seen) --- *)
+Theorem C57_chain_sizes_add_up : forall slotSize doublecheck img s f l,
   rebuild slotSize doublecheck img = Ok s -> readable (ents s f) = true ->
-  chain_of s (a_start (ents s f)) l -> sumsz s l = e_size (ents s f).
-Proof. exact readable_chain_sizes_partial. Qed.
-Print Assumptions C57_chain_sizes_add_up_partial.
+  chain_of s (a_start (ents s f)) l -> sumsz s l = a_swapsz (ents s f).
+Proof. exact readable_chain_sizes. Qed.
+Print Assumptions C57_chain_sizes_add_up.
 
-Theorem C57_sizes_add_up_to_entry_size_refuted :
-  holds_after 131072 false
-    [DHdr (mkHdr 5 7 300 100 1 0 (-1)) (MOk true 5 7 0 false 75); dE; dE; dE; dE; dE; dE] (fun s =>
-    readable (ents s 5) = true /\ chain_of s (a_start (ents s 5)) [0] /\
-    sumsz s [0] = 100 /\ a_swapsz (ents s 5) = 300).
-Proof. exact short_chain_witness. Qed.
-Print Assumptions C57_sizes_add_up_to_entry_size_refuted.
+(* --- complete: the first (inode, metadata) slot of every readable entry was loaded --- *)
+Theorem C57_readable_entry_has_inode : forall slotSize doublecheck img s f,
+  rebuild slotSize doublecheck img = Ok s -> readable (ents s f) = true -> e_anch (ents s f) = true.
+Proof. exact readable_anchored. Qed.
+Print Assumptions C57_readable_entry_has_inode.
 
 (* --- a finished rebuild leaves no entry locked for writing --- *)
 Theorem C57_nothing_left_locked : forall slotSize doublecheck img s f,
@@ -57,13 +54,28 @@ Theorem C57_nothing_left_locked : forall slotSize doublecheck img s f,
 Proof. exact nothing_left_locked. Qed.
 Print Assumptions C57_nothing_left_locked.
 
-(* --- "without crashing" is FALSE for the code as it is: three images on which squid dies --- *)
-Theorem C57_never_crashes_refuted_allones_size :
-  rebuild 131072 false
-    [DHdr (mkHdr 5 7 rr_entry_size_max 200 1 0 (-1)) (MOk true 5 7 0 false 75); dE; dE; dE; dE; dE; dE] = Abort.
-Proof. exact crash_allones_witness. Qed.
-Print Assumptions C57_never_crashes_refuted_allones_size.
+(* --- all-ones size fields (repaired in e9a49c7): importEntry never lets one into the index, and the two
+       images that used to trip the asserts are now rebuilt to an index with nothing readable --- *)
+Theorem C57_allones_size_never_imported : forall h m e e',
+  import_entry h m e = ImpOk e' -> a_swapsz e' <> rr_entry_size_max.
+Proof. exact import_never_allones. Qed.
+Print Assumptions C57_allones_size_never_imported.
 
+Theorem C57_never_crashes_on_allones_entry_size :
+  holds_after 131072 false
+    [DHdr (mkHdr 5 7 rr_entry_size_max 200 1 0 (-1)) (MOk true 5 7 0 false 75); dE; dE; dE; dE; dE; dE]
+    (fun s => forall f, 0 <= f < 7 -> readable (ents s f) = false).
+Proof. exact allones_entry_size_regress. Qed.
+Print Assumptions C57_never_crashes_on_allones_entry_size.
+
+Theorem C57_never_crashes_on_allones_metadata_size :
+  holds_after 131072 false
+    [DHdr (mkHdr 5 7 0 100 1 0 (-1)) (MOk true 5 7 rr_entry_size_max false 75); dE; dE; dE; dE; dE; dE]
+    (fun s => forall f, 0 <= f < 7 -> readable (ents s f) = false).
+Proof. exact allones_meta_size_regress. Qed.
+Print Assumptions C57_never_crashes_on_allones_metadata_size.
+
+(* --- "without crashing" is still FALSE: cross-linked chains kill squid (known finding C57-cross-linked-chains) --- *)
 Theorem C57_never_crashes_refuted_cross_linked : rebuild 131072 false img_double_free = Abort.
 Proof. exact crash_double_free_witness. Qed.
 Print Assumptions C57_never_crashes_refuted_cross_linked.
@@ -80,14 +92,6 @@ Theorem C57_chain_slots_not_free_refuted :
 Proof. exact freed_slot_in_use_witness. Qed.
 Print Assumptions C57_chain_slots_not_free_refuted.
 
-(* --- "complete" is false: an entry without its first (inode) slot is indexed --- *)
-Theorem C57_chain_starts_at_inode_refuted :
-  holds_after 131072 false
-    [DHdr (mkHdr 5 7 0 100 1 4 (-1)) MBad; dE; dE; dE; dE; dE; dE] (fun s =>
-    readable (ents s 5) = true /\ chain_of s (a_start (ents s 5)) [0] /\ e_anch (ents s 5) = false).
-Proof. exact no_inode_witness. Qed.
-Print Assumptions C57_chain_starts_at_inode_refuted.
-
 (* --- chains can mix cells of two keys, and of two versions of one key --- *)
 Theorem C57_chain_of_one_key_refuted :
   holds_after 131072 false img_hodgepodge (fun s =>
@@ -102,6 +106,25 @@ Theorem C57_chain_of_one_version_refuted :
     (fun s => readable (ents s 5) = true /\ chain_of s (a_start (ents s 5)) [0; 1] /\ a_swapsz (ents s 5) = 200).
 Proof. exact version_mix_witness. Qed.
 Print Assumptions C57_chain_of_one_version_refuted.
+
+(* --- PARTIAL, what does hold about keys and versions: in an image in which no used cell links to a used cell
+       of another key and the swap metadata keys equal the cell keys, every slot of a readable chain holds a
+       cell stamped with the entry's key; if moreover cells of one key carry one version, one version --- *)
+Theorem C57_chain_of_one_key_partial : forall slotSize doublecheck img s f l,
+  rebuild slotSize doublecheck img = Ok s -> no_cross_key_links slotSize img -> meta_keys_match img ->
+  readable (ents s f) = true -> chain_of s (a_start (ents s f)) l ->
+  forall x, In x l -> exists h m, live slotSize img x h m /\ h_k0 h = a_k0 (ents s f) /\ h_k1 h = a_k1 (ents s f).
+Proof. exact readable_chain_one_key_partial. Qed.
+Print Assumptions C57_chain_of_one_key_partial.
+
+Theorem C57_chain_of_one_version_partial : forall slotSize doublecheck img s f l,
+  rebuild slotSize doublecheck img = Ok s -> no_cross_key_links slotSize img -> meta_keys_match img ->
+  (forall x y hx mx hy my, live slotSize img x hx mx -> live slotSize img y hy my ->
+      h_k0 hx = h_k0 hy -> h_k1 hx = h_k1 hy -> h_ver hx = h_ver hy) ->
+  readable (ents s f) = true -> chain_of s (a_start (ents s f)) l ->
+  forall x y hx mx hy my, In x l -> In y l -> live slotSize img x hx mx -> live slotSize img y hy my -> h_ver hx = h_ver hy.
+Proof. exact readable_chain_one_version_partial. Qed.
+Print Assumptions C57_chain_of_one_version_partial.
 
 (* --- the hypotheses of the implications are met by concrete images --- *)
 Example C57_example_plain_entry_indexed :
@@ -120,3 +143,9 @@ Example C57_example_two_entries_indexed :
     readable (ents s 1) = true /\ chain_of s (a_start (ents s 1)) [0; 2] /\
     readable (ents s 2) = true /\ chain_of s (a_start (ents s 2)) [1; 3] /\ a_swapsz (ents s 2) = 110).
 Proof. exact two_entries_example. Qed.
+
+Example C57_example_partial_hypotheses : no_cross_key_links 262144 img_two /\ meta_keys_match img_two /\
+  holds_after 262144 false img_two (fun s =>
+    readable (ents s 1) = true /\ chain_of s (a_start (ents s 1)) [0; 2] /\
+    readable (ents s 2) = true /\ chain_of s (a_start (ents s 2)) [1; 3] /\ a_swapsz (ents s 2) = 110).
+Proof. exact img_two_hypotheses. Qed.
